@@ -893,6 +893,7 @@ pub fn run_session<C: Autocomplete + Help>(
                         let mut ok = false;
                         let mut open = false;
                         let mut exp_desc = String::new();
+                        let mut max_hi = 0usize;
                         for toks in &alts {
                             let (exp_count_lo, exp_count_hi, exp_rec) = if toks.is_empty() {
                                 (0, 0, None)
@@ -910,6 +911,7 @@ pub fn run_session<C: Autocomplete + Help>(
                                 }
                             };
                             exp_desc = format!("{} dispatch(es) of {:?}", exp_count_hi, toks);
+                            max_hi = max_hi.max(exp_count_hi);
                             if recs.len() < exp_count_lo || recs.len() > exp_count_hi {
                                 continue;
                             }
@@ -940,7 +942,10 @@ pub fn run_session<C: Autocomplete + Help>(
                                 _ => false,
                             };
                             let count_only = recs.len() > 1 || (recs.len() == 1 && real.is_none());
-                            if via_tokenizer && !count_only && !(recs.is_empty() && !alts[0].is_empty()) {
+                            if recs.len() > max_hi {
+                                // more dispatches than any reading of the line allows: a help request (or an empty line) reached the handler
+                                found!("C01", P_C01, "dispatch", if recs.len() == 1 { "dispatched-what-must-not-be" } else { "multiple-dispatch" }, i, "Enter on {:?}: handler got {}, expected {}", pre_line, show_recs(&recs), exp_desc);
+                            } else if via_tokenizer && !count_only && !(recs.is_empty() && !alts[0].is_empty()) {
                                 rep.count("deferred_to:C07/C08");
                             } else {
                                 let tag = if recs.len() > 1 { "multiple-dispatch" } else if recs.is_empty() { "no-dispatch" } else { "wrong-tokens" };
